@@ -208,6 +208,19 @@ pub fn huge_k_child() -> i32 {
             if got != vec![5, 6, 7] {
                 return Some(format!("iter() yields {:?} after adding 5,6,5,7,5,6", got));
             }
+            // clear(), clone() and Extend must work for the same k
+            heap.clear();
+            if !heap.is_empty() || heap.iter().count() != 0 {
+                return Some("not empty after clear()".into());
+            }
+            heap.extend([9u64, 8, 9]);
+            let mut c = heap.clone();
+            c.add(1);
+            let mut got: Vec<u64> = c.iter().collect();
+            got.sort_unstable();
+            if got != vec![1, 8, 9] {
+                return Some(format!("after clear(), extend([9,8,9]), clone(), add(1): iter() yields {:?}", got));
+            }
             None
         });
         match res {
